@@ -39,12 +39,22 @@ m('A06-fetch_n-publishes-buffer-len', [(IT, '''                _ => {
                     let older_count = self.progress_yielded_counter(buffer.len());
                     let values = buffer.into_iter();''')], ['C09', 'C01', 'C04'])
 m('A07-buffered-pull-publishes-filled', [(BI, 'let older_count = iter.progress_yielded_counter(self.chunk_size());', 'let older_count = iter.progress_yielded_counter(i.max(1));')], ['C09', 'C01'])
-m('A08-buffered-chunk-len-is-chunk-size', [(BI, '''                    initial_len: i,''', '''                    initial_len: self.values.len(),''')], ['C03'])
+m('A08-buffered-chunk-len-is-chunk-size', [(BI, '''        match i {
+            0 => None,''', '''        let i = if i > 1 { self.values.len() } else { i };
+        match i {
+            0 => None,''')], ['C03'])
 m('A09-try_get_len-ignores-completed', [(IT, '''        match self.completed.load(atomic::Ordering::SeqCst) {
             true => Some(0),
-            false => self.initial_len.map(|initial_len| {''', '''        match false {
+            false => self.initial_len.map(|initial_len| {''', '''        match self.completed.load(atomic::Ordering::SeqCst) && false {
             true => Some(0),
             false => self.initial_len.map(|initial_len| {''')], ['C06', 'C11'])
+m('A09b-try_get_len-flag-before-counter-again', [(IT, '''        let current = <Self as AtomicIter<_>>::counter(self).current();
+        match self.completed.load(atomic::Ordering::SeqCst) {
+            true => Some(0),
+            false => self.initial_len.map(|initial_len| {''', '''        match self.completed.load(atomic::Ordering::SeqCst) {
+            true => Some(0),
+            false => self.initial_len.map(|initial_len| {
+                let current = <Self as AtomicIter<_>>::counter(self).current();''')], ['C11'])
 m('A10-initial-len-from-lower-bound', [(IT, '''            (lower, Some(upper)) if lower == upper => Some(lower),
             _ => None,''', '''            (lower, Some(upper)) if lower == upper => Some(lower),
             (lower, Some(_)) => Some(lower),
